@@ -10,6 +10,9 @@ git apply "$d/patch.diff" || { echo "patch does not apply" > "$d/result.txt"; ex
   echo "== build + ctest"
   if cmake --build /repo/_build -j 14 > /tmp/seeded_build.log 2>&1; then echo "build ok"; else echo "BUILD FAILED"; tail -5 /tmp/seeded_build.log; fi
   ctest --test-dir /repo/_build -j8 --timeout 900 2>&1 | grep -E "tests passed|tests failed"
+  if [ -f "$d/demo.sh" ]; then
+    timeout 300 bash "$d/demo.sh" /repo > /tmp/seeded_demo.log 2>&1; echo "demo (changed tree) exit $?  [non-zero = the demonstration fails with the change]"
+  fi
   for c in "$@"; do
     echo "== check $c"
     (cd /verif && VERIF_SEED=${VERIF_SEED:-1} timeout 3000 ./check "$c" --tier quick 2>&1 | grep -E "VIOLATION|KNOWN-FINDING" | head -5; echo "exit ${PIPESTATUS[0]}")
